@@ -185,7 +185,7 @@ func TestProp_Lifecycle(t *testing.T) {
 		c := lifecycleCase{
 			Mode:   rapid.SampledFrom([]string{"users", "users", "constant", "file"}).Draw(rt, "mode"),
 			Conc:   rapid.IntRange(1, 8).Draw(rt, "concurrency"),
-			Ending: rapid.SampledFrom([]string{"limit", "limit", "limit", "duration", "duration", "cancel", "cancel", "completion-timeout", "completion-timeout", "long-run-short-wait"}).Draw(rt, "ending"),
+			Ending: rapid.SampledFrom([]string{"limit", "limit", "limit", "duration", "duration", "cancel", "cancel", "completion-timeout", "completion-timeout", "long-run-short-wait", "duration-then-cancel"}).Draw(rt, "ending"),
 			BodyUs: rapid.SampledFrom([]int{0, 0, 100, 1000}).Draw(rt, "bodyMicros"),
 		}
 		if c.Ending == "completion-timeout" && c.Mode != "constant" && vlib.KnownOpen("F11-users-trigger-ignores-completion-timeout") {
@@ -220,6 +220,12 @@ func TestProp_Lifecycle(t *testing.T) {
 			c.CancelMs = rapid.IntRange(0, 60).Draw(rt, "cancelMs")
 		case "completion-timeout":
 			c.DurMs = rapid.IntRange(30, 80).Draw(rt, "durationMs")
+		case "duration-then-cancel":
+			// max-duration elapses with iterations (150 ms) still in flight, then the run is cancelled while
+			// it waits for them: the wait goes on (the completion timeout is 20 s), teardown comes last
+			c.DurMs = rapid.IntRange(30, 80).Draw(rt, "durationMs")
+			c.CancelMs = c.DurMs + rapid.IntRange(15, 70).Draw(rt, "cancelAfterEndMs")
+			c.BodyUs = 150000
 		case "long-run-short-wait":
 			// the run lasts longer than the completion timeout; iterations in flight when triggering stops
 			// need a few ms, far less than the timeout, which therefore does not expire
@@ -296,7 +302,7 @@ func TestProp_Lifecycle(t *testing.T) {
 		rec := judged
 		ctx, cancel := context.WithCancel(context.Background())
 		defer cancel()
-		if c.Ending == "cancel" {
+		if c.Ending == "cancel" || c.Ending == "duration-then-cancel" {
 			go func() {
 				time.Sleep(time.Duration(c.CancelMs) * time.Millisecond)
 				cancel()
